@@ -63,6 +63,13 @@ def run(prog, rep, tier):
             if okpos:
                 ip = [p for p in e[1][1] if p[0] in ('idx', 'cidx')][0]
                 okpos = (ip[0] == 'cidx' and ip[1] == 0) or (ip[0] == 'idx' and const_eval(nb, census._mk_copy((ip[1], ()))) == 0)
+            if not okpos and pos.place is not None:
+                # `offsets.first()` form: the position is (a copy of) the element first() / get(0) returned for the offsets parameter
+                def is_first(k, ob, bb):
+                    if k != 'call' or not ob.args or ob.args[0].place is None or 2 not in origins(nb, [ob.args[0].place[0]]).params:
+                        return False
+                    return ob.cmethod == 'first' or (ob.cmethod == 'get' and len(ob.args) == 2 and const_eval(nb, ob.args[1]) == 0)
+                okpos = must_derive(nb, pos.place[0], is_first, extra_transparent=('copied', 'cloned', 'ok_or_else', 'ok_or', 'branch', 'unwrap', 'expect'))
             oksrc = sblk.term.args[0].place is not None and must_derive(nb, sblk.term.args[0].place[0], lambda k, ob, bb: k == 'param' and ob == 1) and \
                 reads[0].term.args[0].place is not None and must_derive(nb, reads[0].term.args[0].place[0], lambda k, ob, bb: k == 'param' and ob == 1)
             pr = seek_ok_propagated(prog, nb, sblk)
